@@ -172,6 +172,22 @@ where
 		let parent_key_id = context.parent_key_id.clone();
 
 		if let Some(args) = context.late_lock_args.take() {
+			// A late-locked transaction has no tx log entry yet: the entry is only
+			// created below, from the slate we were handed. The recipient address the
+			// payment proof was requested from is therefore checked here, against the
+			// original send arguments, before anything is selected or locked.
+			if let Some(ref a) = args.payment_proof_recipient_address {
+				match sl.payment_proof {
+					Some(ref p) if p.receiver_address == a.pub_key => {}
+					_ => {
+						return Err(Error::PaymentProof(
+							"Payment proof on slate does not match the recipient address it was requested from"
+								.to_owned(),
+						));
+					}
+				}
+			}
+
 			// Transaction was late locked, select inputs+change now
 			// and insert into original context
 
